@@ -3,8 +3,8 @@ from propdefs.common import *
 PROP = {
     "bin": "c08",
     "coq_targets": ["theories/Mem/C08Check"],
-    "n": {"quick": 3000, "thorough": 60000},
-    "theorems": [],
+    "n": {"quick": 2000, "thorough": 40000},
+    "theorems": ["reject_bad_width", "eq_refl_clone", "eq_implies_same_loads", "perm_range", "perm_default_backing", "store_keeps_perms", "cells_store_refines"],
     "rule": "histories of 1-60 operations (store 40%, load 35%, clone 5%, new 1%, set_permissions 6%, permissions 8%, eq 5%) over three "
             "handles of paged::Memory<il::Constant>, one xoshiro256** stream per (seed,index); widths {8,16,24,32,64,128,136} (+ a malformed "
             "stream with 0/7/12 bits in 1/8 of the histories); addresses within +-9 of 1-3 bases (page boundaries 1024k, 0, 2^64-32, last page) "
